@@ -5,20 +5,19 @@ open Conv
 
 let modes = [ (Local, "local"); (Full, "full"); (Domain, "domain") ]
 
-(* net.ParseIP verdicts supplied by the driver: "hex=0/1,hex=0/1" *)
-let ip_miss = ref false
-let parse_table (f : string) : (string, bool) Hashtbl.t =
-  let t = Hashtbl.create 8 in
+(* IP literals: the model has its own parser (Model/IpLit.v, go_parse_ip). The driver still
+   sends net.ParseIP's verdict for every literal body occurring in the case ("hex=0/1,...");
+   each one is cross-checked against the modelled parser, a difference is a mismatch. *)
+let ip_diff = ref ""
+let cross_check (f : string) : unit =
+  ip_diff := "";
   if f <> "-" && f <> "" then
     List.iter (fun kv ->
       match String.split_on_char '=' kv with
-      | [k; v] -> Hashtbl.replace t (Mlutil.unhex k) (v = "1")
-      | _ -> ()) (String.split_on_char ',' f);
-  t
-let parse_ip_of tab (s : str) : bool =
-  match Hashtbl.find_opt tab (raw_of_str s) with
-  | Some v -> v
-  | None -> ip_miss := true; false
+      | [k; v] ->
+          let m = go_parse_ip (str_of_field k) in
+          if m <> (v = "1") && !ip_diff = "" then ip_diff := "IPDIFF:" ^ k ^ ":model=" ^ field_of_bool m
+      | _ -> ()) (String.split_on_char ',' f)
 
 let opt_field = function None -> "NONE" | Some s -> "S" ^ field_of_str s
 let mailbox_field = function None -> "NONE" | Some r -> "S" ^ field_of_str r.r_mailbox
@@ -69,17 +68,17 @@ let live pip iptab ins outs =
                  else "ok")
         | "PANIC" :: _ -> "fail:panic"
         | _ -> "ok" (* anything else (refused DATA, harness trouble) is left to the comparison *) in
-      Mlutil.print_model ((if !ip_miss then "IPMISS" else iptab) :: fields) verdict
+      Mlutil.print_model ((if !ip_diff <> "" then !ip_diff else iptab) :: fields) verdict
   | _ -> Mlutil.print_model ["BAD-LIVE-LINE"] "ok"
 
 let () =
   Mlutil.iter_lines (fun line ->
     let (kind, ins, outs) = Mlutil.split_case line in
-    ip_miss := false;
     let iptab = match outs with t :: _ -> t | [] -> "-" in
-    let pip = parse_ip_of (parse_table iptab) in
+    if kind <> "ip" then cross_check iptab else ip_diff := "";
+    let pip = go_parse_ip in
     let finish fields verdict =
-      Mlutil.print_model ((if !ip_miss then "IPMISS" else iptab) :: fields) verdict in
+      Mlutil.print_model ((if !ip_diff <> "" then !ip_diff else iptab) :: fields) verdict in
     match kind, ins with
     | "addr", [a] ->
         let a = str_of_field a in
@@ -165,15 +164,20 @@ let () =
           | "PANIC" :: _ -> "fail:panic"
           | _ -> "fail:no-answer" in
         finish fields verdict
-    | "ip", [_] ->
-        (* the two assumptions on net.ParseIP; no model side (the model takes it as an argument) *)
+    | "ip", [lit] ->
+        (* the modelled literal parser against net.ParseIP, on the literal and on its lower-cased spelling;
+           the third field: every byte is a hex digit, '.' or ':' *)
+        let l = str_of_field lit in
+        let fields = [field_of_bool (go_parse_ip l); field_of_bool (go_parse_ip (lower l));
+                      field_of_bool (List.for_all (fun c -> let c = int_of_n c in
+                        (c >= 48 && c <= 57) || (c >= 97 && c <= 102) || (c >= 65 && c <= 70) || c = 46 || c = 58) l)] in
         let verdict =
           match outs with
           | [v; vl; alpha] ->
-              if v <> vl then "fail:assumption-parse-ip-case-sensitive"
-              else if v = "1" && alpha <> "1" then "fail:assumption-parse-ip-alphabet"
+              if v <> vl then "fail:parse-ip-case-sensitive"
+              else if v = "1" && alpha <> "1" then "fail:parse-ip-accepts-foreign-byte"
               else "ok"
           | _ -> "fail:no-answer" in
-        Mlutil.print_model outs verdict
+        Mlutil.print_model fields verdict
     | "live", _ -> live pip iptab ins outs
     | _ -> Mlutil.print_model ["UNKNOWN-KIND"] "ok")
